@@ -233,10 +233,16 @@ theorem hNow_entries (c : Ctx) (l : List HEmit) : (hNow c l).filterMap Item.entr
       simp only [hNow, List.filterMap_cons, h, ih]
 
 theorem sleepers_entries (c : Ctx) (l : Sleepers) :
-    (l.map (fun s => s.2.toItem c)).filterMap Item.entry? = [] := by
-  induction l with
-  | nil => rfl
-  | cons e l ih => simp [toItem_entry, ih]
+    (wokenItems c l).filterMap Item.entry? = [] := by
+  rw [List.filterMap_eq_nil_iff]
+  intro a ha
+  simp only [wokenItems, List.mem_filterMap] at ha
+  obtain ⟨s, _, hs⟩ := ha
+  unfold Task.item? at hs
+  cases hf : s.2.fin with
+  | send x => rw [hf] at hs; simp only [Option.some.injEq] at hs; subst hs; exact toItem_entry c x
+  | panic => rw [hf] at hs; simp at hs
+  | hang => rw [hf] at hs; simp at hs
 
 theorem handlerItems_entries (c : Ctx) (h : ModRt) (kind : Kind) (out : Option Nat) :
     (handlerItems c h kind out).filterMap Item.entry? = handlerEntries c.mod c.now kind out := by
